@@ -221,6 +221,28 @@ func kinds() []keyKind {
 			return rv
 		}},
 	}
+	// interface{} keys mixing composite (array, struct) and scalar dynamic types: the scalars must be encoded in
+	// map-key context whatever comes before them (json MapKeyAsString, simple EncZeroValuesAsNil make that visible)
+	ks = append(ks, keyKind{name: "iface-composite-mixed", kk: "KKOob", typ: ifaceT, gen: func(r *vh.Rng) reflect.Value {
+		var v interface{}
+		switch r.Intn(7) {
+		case 0:
+			v = [2]int16{int16(r.Intn(5) - 2), int16(r.Intn(3))}
+		case 1:
+			v = SK{int8(r.Intn(5) - 2), "k" + randKeyString(r)}
+		case 2, 3:
+			v = int64(r.Intn(9) - 4)
+		case 4:
+			v = r.Bool()
+		case 5:
+			v = float64(r.Intn(4)) * 0.5
+		default:
+			v = [2]int16{0, int16(r.Intn(2))}
+		}
+		rv := reflect.New(ifaceT).Elem()
+		rv.Set(reflect.ValueOf(v))
+		return rv
+	}})
 	// named fast-path map type
 	ks = append(ks, keyKind{name: "MSS", kk: "KKString", typ: strT, mapT: reflect.TypeOf(MSS{}),
 		gen: func(r *vh.Rng) reflect.Value { return reflect.ValueOf(randKeyString(r)) }})
@@ -334,6 +356,14 @@ func mapsStream(r *vh.Rng, n, reps int, cv *vh.Cases, sum *vh.Summary, idBase in
 		o["Canonical"] = true
 		delete(o, "IndefiniteLength") // chunks strings: the sentinels would not be contiguous
 		delete(o, "StringToRaw")      // json: base64
+		if kk.name == "iface-composite-mixed" {
+			switch format {
+			case "json":
+				o["MapKeyAsString"] = true
+			case "simple":
+				o["EncZeroValuesAsNil"] = true
+			}
+		}
 		h := vh.NewHandle(format, o)
 		on := vh.Opts{}
 		for k, v := range o {
@@ -807,7 +837,87 @@ func nestedStream(r *vh.Rng, n, reps int, sum *vh.Summary) {
 	}
 }
 
+// ---- nested maps whose outer and inner keys are long structs (out-of-band keys that outgrow the side buffer) ----
+
+type LK struct {
+	Name string
+	N    int
+}
+
+func nestedStructStream(r *vh.Rng, n, reps int, sum *vh.Summary) {
+	for it := 0; it < n; it++ {
+		format := vh.Formats[it%len(vh.Formats)]
+		o := vh.RandEncOpts(r, format)
+		o["Canonical"] = true
+		delete(o, "AsSymbols") // binc symbols in out-of-band keys are F08-3
+		delete(o, "StructToArray")
+		h := vh.NewHandle(format, o)
+		no, ni := r.PickInt(2, 4, 8, 8, 12), r.PickInt(1, 3, 8, 8, 12)
+		pad := strings.Repeat("abcdefgh", r.PickInt(1, 3, 4, 6))
+		bytesVals := it%3 == 2 // map[LK][]byte instead of map[LK]map[LK]string
+		okeys := make([]LK, no)
+		for i := range okeys {
+			okeys[i] = LK{fmt.Sprintf("outer-key-%02d-%s", i, pad), i}
+		}
+		build := func() interface{} {
+			if bytesVals {
+				m := map[LK][]byte{}
+				for _, i := range randPerm(r, no) {
+					m[okeys[i]] = []byte(fmt.Sprintf("value-bytes-%02d-%s", i, pad))
+				}
+				return m
+			}
+			m := map[LK]map[LK]string{}
+			for _, i := range randPerm(r, no) {
+				in := map[LK]string{}
+				for _, j := range randPerm(r, ni) {
+					in[LK{fmt.Sprintf("inner-key-%02d-of-%02d-%s", j, i, pad), j}] = fmt.Sprintf("v%d.%d", i, j)
+				}
+				m[okeys[i]] = in
+			}
+			return m
+		}
+		orig := build()
+		cj := map[string]interface{}{"format": format, "opts": o.String(), "outer": no, "inner": ni, "keypad": len(pad), "bytes_values": bytesVals, "seed_index": it}
+		var first []byte
+		for q := 0; q < reps+5; q++ {
+			var out []byte
+			var err error
+			if q%4 == 3 {
+				out, err = encIO(h, build())
+			} else {
+				out, err = encBytes(h, build())
+			}
+			if err != nil {
+				cj["err"] = fmt.Sprint(err)
+				sum.FailC("nstruct", "encode-error:nested-struct-keys", "Canonical Encode of nested maps with struct keys failed", cj)
+				break
+			}
+			if first == nil {
+				first = out
+			} else if !bytes.Equal(first, out) {
+				cj["first"], cj["got"] = vh.Hex(first), vh.Hex(out)
+				sum.FailC("nstruct", "canonical-nondeterministic:nested-struct-keys", "Canonical encodings of equal nested maps with struct keys differ", cj)
+				break
+			}
+			if format != "json" { // a json object key cannot be a struct
+				got := reflect.New(reflect.TypeOf(orig))
+				if err := codec.NewDecoderBytes(out, h).Decode(got.Interface()); err != nil {
+					cj["err"] = fmt.Sprint(err)
+					sum.FailC("nstruct", "decode:nested-struct-keys", "canonical bytes of nested maps with struct keys do not decode", cj)
+					break
+				} else if !reflect.DeepEqual(got.Elem().Interface(), orig) {
+					sum.FailC("nstruct", "decode-differs:nested-struct-keys", "canonical bytes of nested maps with struct keys decode to a different value", cj)
+					break
+				}
+			}
+		}
+		sum.Count("nstruct."+format, fmt.Sprintf("nstruct/%s/%d/%d/%d/%v", format, no, ni, len(pad), bytesVals))
+	}
+}
+
 func main() {
+	nNStruct := flag.Int("nstruct", 40, "nested maps with long struct keys")
 	nMaps := flag.Int("maps", 500, "maps (model-compared)")
 	nStruct := flag.Int("structs", 80, "structs with missing fields (model-compared)")
 	nNested := flag.Int("nested", 150, "nested values")
@@ -815,11 +925,12 @@ func main() {
 	cases := flag.String("cases", "/verif/build/c08/cases", "directory for the model case files")
 	flag.Parse()
 	r := vh.NewRng(vh.SeedFromEnv())
-	sum := vh.NewSummary("maps: 30 key kinds (named int/string/int16 keys with Text / Binary / Selfer hooks, string, named string, intN, named int, uintN, uintptr, named uint, float32/64, named float, bool, time, time keys inside one second, time in several zones, struct, array, interface{} with distinct / with shared encodings, named fast-path map) x 5 formats x random options x sizes 1..24 x 3 insertion permutations x reps fresh Encoders x 4 goroutines x bytes/io; distinct by (key kind, format, size, ties). struct: MissingFielder struct (declared fields always present / all omitempty with 0, 1, several or all present) x extra-field sets rebuilt in random order. nested: maps/lists to depth 3 rebuilt in random insertion orders")
+	sum := vh.NewSummary("maps: 31 key kinds (interface{} keys mixing arrays/structs with scalars under json MapKeyAsString / simple EncZeroValuesAsNil, named int/string/int16 keys with Text / Binary / Selfer hooks, string, named string, intN, named int, uintN, uintptr, named uint, float32/64, named float, bool, time, time keys inside one second, time in several zones, struct, array, interface{} with distinct / with shared encodings, named fast-path map) x 5 formats x random options x sizes 1..24 x 3 insertion permutations x reps fresh Encoders x 4 goroutines x bytes/io; distinct by (key kind, format, size, ties). struct: MissingFielder struct (declared fields always present / all omitempty with 0, 1, several or all present) x extra-field sets rebuilt in random order. nested: maps/lists to depth 3 rebuilt in random insertion orders. nstruct: map[struct]map[struct]string and map[struct][]byte with 20-60 byte keys, up to 12x12, identical bytes across rebuilds and DeepEqual after Decode")
 	cv := vh.NewCases(*cases, "From Coq Require Import List NArith ZArith.\nFrom Verif Require Import C08.Model C08.Corr.\nImport ListNotations.", "case", "mismatches", 60)
 	id := mapsStream(r.Fork(), *nMaps, *reps, cv, sum, 0)
 	structStream(r.Fork(), *nStruct, *reps, cv, sum, id)
 	nestedStream(r.Fork(), *nNested, *reps, sum)
+	nestedStructStream(r.Fork(), *nNStruct, *reps, sum)
 	cv.Close()
 	sum.Print()
 }
